@@ -6,6 +6,7 @@ Rendering evaluates the specification's expressions on a proxy of the Model rebu
 line records made of template segments and values; turning values into text is done by the Coq model
 (Model/Fmt.v, Model/Report.v), never by Python's formatter."""
 import ast
+import collections
 import json
 import re
 
@@ -87,6 +88,103 @@ class Volatile(Exception):
 
 
 # ---------------------------------------------------------------------------------------------------------
+# printed expression -> expression of the Coq float model (Model/Float.v): Coq computes the figure from the snapshot leaves
+# ---------------------------------------------------------------------------------------------------------
+class Fallback(Exception):
+    """the expression is outside what the translator / the float model covers: the harness value is used instead"""
+
+
+REDUCTIONS = {'np.average': 'SAvg', 'np.mean': 'SAvg', 'np.sum': 'SSum', 'sum': 'SPySum', 'np.max': 'SMax', 'max': 'SMax',
+              'np.min': 'SMin', 'min': 'SMin'}
+BINOPS = {ast.Add: 'SAdd', ast.Sub: 'SSub', ast.Mult: 'SMul', ast.Div: 'SDiv'}
+
+
+class Translator:
+    def __init__(self, renderer, loopvar=None):
+        self.R, self.var = renderer, loopvar
+
+    def uses_var(self, node):
+        return self.var is not None and any(isinstance(x, ast.Name) and x.id == self.var for x in ast.walk(node))
+
+    def val(self, node):
+        if self.uses_var(node):
+            raise Fallback('loop variable outside an index')
+        try:
+            return eval(compile(ast.fix_missing_locations(ast.Expression(body=node)), '<leaf>', 'eval'), self.R.ns)
+        except Exception as e:
+            raise Fallback(repr(e))
+
+    def is_array(self, node):
+        if self.uses_var(node):
+            return False
+        try:
+            return isinstance(self.val(node), np.ndarray)
+        except Fallback:
+            return False
+
+    def leaf(self, v):
+        if isinstance(v, (bool, np.bool_)) or not isinstance(v, (int, float, np.integer, np.floating)):
+            raise Fallback(f'not a number: {type(v).__name__}')
+        if isinstance(v, (int, np.integer)) and abs(int(v)) >= 2 ** 53:
+            raise Fallback('integer beyond 2^53')
+        return f'(SLeaf {c09fmt.fl(v)})'
+
+    def S(self, node):
+        """scalar expression -> sexpr term"""
+        if isinstance(node, ast.Constant):
+            return self.leaf(node.value)
+        if isinstance(node, ast.BinOp) and type(node.op) in BINOPS:
+            if self.is_array(node.left) or self.is_array(node.right):
+                raise Fallback('array-valued operand in a scalar position')
+            return f'({BINOPS[type(node.op)]} {self.S(node.left)} {self.S(node.right)})'
+        if isinstance(node, ast.UnaryOp) and isinstance(node.op, ast.USub):
+            return f'(SNeg {self.S(node.operand)})'
+        if isinstance(node, ast.Call) and len(node.args) == 1 and not node.keywords:
+            fn = ast.unparse(node.func)
+            if fn in REDUCTIONS:
+                return f'({REDUCTIONS[fn]} {self.A(node.args[0])})'
+            if fn == 'float':
+                return self.S(node.args[0])
+        if isinstance(node, ast.Subscript) and (self.is_array(node.value) or self.uses_var(node.slice)):
+            if self.uses_var(node.slice):
+                return f'(SRow {self.A(node.value)})'
+            i = self.val(node.slice)
+            if not isinstance(i, (int, np.integer)):
+                raise Fallback('non-integer index')
+            n = len(self.val(node.value))
+            i = int(i) + n if i < 0 else int(i)
+            return f'(SIdx {self.A(node.value)} {i})'
+        if isinstance(node, ast.Name) and node.id in self.R.set_exprs:
+            return self.S(ast.parse(self.R.set_exprs[node.id], mode='eval').body)
+        return self.leaf(self.val(node))
+
+    def A(self, node):
+        """array expression -> aexpr term"""
+        if isinstance(node, ast.BinOp) and isinstance(node.op, (ast.Mult, ast.Div)):
+            la, ra = self.is_array(node.left), self.is_array(node.right)
+            if la and not ra:
+                return f'({"AMulS" if isinstance(node.op, ast.Mult) else "ADivS"} {self.A(node.left)} {self.S(node.right)})'
+            if ra and not la and isinstance(node.op, ast.Mult):
+                return f'(AMulS {self.A(node.right)} {self.S(node.left)})'
+        v = self.val(node)
+        if not isinstance(v, np.ndarray) or v.ndim != 1 or v.dtype != np.float64:
+            raise Fallback('not a one-dimensional float64 array')
+        return f'(ALeaf {self.R.series_name(v)})'
+
+    def figure(self, src):
+        """Coq term for a printed scalar expression, or None when it is a plain value / outside the model"""
+        try:
+            term = self.S(ast.parse(src, mode='eval').body)
+        except (Fallback, SyntaxError):
+            self.R.translation['fallback'] += 1
+            return None
+        if term.startswith('(SLeaf '):
+            return None
+        self.R.translation['computed_by_coq'] += 1
+        return term
+
+
+# ---------------------------------------------------------------------------------------------------------
 # Renderer
 # ---------------------------------------------------------------------------------------------------------
 class SpecError(Exception):
@@ -120,7 +218,20 @@ class Renderer:
         self.cur = []           # items of the line being built
         self.executed = set()   # ids of write nodes executed
         self.executed_stmts = set()
+        self.series = {}        # content of a snapshot series -> its name in the Coq term of this run
+        self.set_exprs = {}     # local name -> the expression it was assigned (inlined when Coq computes a figure)
+        self.translation = collections.Counter()
         self.conv_pass = False
+
+    def series_name(self, arr):
+        key = arr.tobytes()
+        if key not in self.series:
+            self.series[key] = (f's{len(self.series)}', '[' + '; '.join(c09fmt.fl(x) for x in arr.tolist()) + ']')
+        return self.series[key][0]
+
+    def lets(self):
+        """`let s0 := [...] in` prefix binding every series the terms of this run refer to"""
+        return ''.join(f'let {n} := {lit} in\n' for n, lit in self.series.values())
 
     def ev(self, src):
         if 'datetime' in src or 'time.time' in src or 'model.tic' in src:
@@ -144,7 +255,8 @@ class Renderer:
                 return [{'k': 'vol'}]
             if isinstance(v, (bool, np.bool_)) or not isinstance(v, (int, float, np.integer, np.floating)):
                 raise SpecError(f'{part[2][:60]} is not a number: {v!r}')
-            return [{'k': 'num', 'kind': kind, 'w': w, 'p': p, 'v': v, 'src': part[2], 'nid': nid}]
+            return [{'k': 'num', 'kind': kind, 'w': w, 'p': p, 'v': v, 'src': part[2], 'nid': nid,
+                     'expr': Translator(self).figure(part[2])}]
         src = part[1]
         if src in self.templates:
             return [dict(x) for x in self.templates[src]]
@@ -216,6 +328,7 @@ class Renderer:
                 else:
                     self.templates.pop(n['name'], None)
                     self.ns[n['name']] = self.ev(n['expr'])
+                    self.set_exprs[n['name']] = n['expr']
             elif t == 'def':
                 self.executed_stmts.add(json.dumps({k: v for k, v in n.items() if k != 'id'}, sort_keys=True))
                 exec(n['src'], self.ns)
@@ -319,7 +432,19 @@ class Renderer:
                     col.append(self.ev(f[2]))
                 cols[c] = col
         segs = [('lit', p[1]) if p[0] == 'lit' else ('fld',) + c09fmt.parse_spec(p[1]) for p in parts]
-        return {'t': 'table', 'n': count, 'off': off, 'k': stride, 'segs': segs, 'cols': cols, 'srcs': srcs,
+        # every cell as an expression of the float model over the snapshot series (SRow = the series at the row's index)
+        ecols = []
+        for c, f in enumerate(flds[1:]):
+            term = None
+            if any(isinstance(x, ast.Subscript) and any(isinstance(y, ast.Name) and y.id == var for y in ast.walk(x.slice))
+                   for x in ast.walk(ast.parse(f[2], mode='eval'))):
+                try:
+                    term = Translator(self, var).S(ast.parse(f[2], mode='eval').body)
+                    self.translation['table_columns_computed_by_coq'] += 1
+                except (Fallback, SyntaxError):
+                    self.translation['table_columns_fallback'] += 1
+            ecols.append(term)
+        return {'t': 'table', 'n': count, 'off': off, 'k': stride, 'segs': segs, 'cols': cols, 'srcs': srcs, 'ecols': ecols,
                 'nids': [w['id'] for w in ws], 'var': var}
 
     def ev_with(self, src, binds):
@@ -367,8 +492,9 @@ def seg_term(s):
     return f'Fld K{s[1]} {s[2]} {s[3]}'
 
 
-def line_term(items, actual):
-    """chk_line for a line record; consecutive literal/text items are merged into one Lit."""
+def line_parts(items, plain=False):
+    """(segs, vals) Coq lists for a line record; consecutive literal/text items are merged into one Lit.
+    plain: every figure as the value the harness computed (second pass), else derived figures as NumE expressions"""
     segs, vals = [], []
     buf = ''
     for it in items:
@@ -380,7 +506,7 @@ def line_term(items, actual):
             buf = ''
         if it['k'] == 'num':
             segs.append(f'Fld K{it["kind"]} {it["w"]} {it["p"]}')
-            vals.append(f'Num {c09fmt.fval(it["v"])}')
+            vals.append(f'NumE {it["expr"]}' if it.get('expr') and not plain else f'Num {c09fmt.fval(it["v"])}')
         elif it['k'] == 'int':
             segs.append('Str')
             vals.append(f'IntV {qconv.zlit(it["v"])}')
@@ -394,18 +520,40 @@ def line_term(items, actual):
             raise ValueError(it['k'])
     if buf:
         segs.append(f'Lit {qconv.coq_bytes(buf)}')
-    return f'chk_line [{"; ".join(segs)}] [{"; ".join(vals)}] {qconv.coq_bytes(actual)}'
+    return f'[{"; ".join(segs)}]', f'[{"; ".join(vals)}]'
 
 
-def table_term(tab, actual_rows):
-    segs = '; '.join(seg_term(s) for s in tab['segs'])
-    # entries no row reads (index not i*k, i < n) are irrelevant to the expected text: written as NaN to keep the literal small;
-    # the Coq model still selects the index, so reading a wrong one shows up as 'nan'
+def line_term(items, actual, plain=False):
+    segs, vals = line_parts(items, plain)
+    return f'chk_line {segs} {vals} {qconv.coq_bytes(actual)}'
+
+
+def line_defined_term(items):
+    return 'line_defined %s %s' % line_parts(items)
+
+
+def table_cols(tab, plain=False):
+    """columns of a table record as sexpr terms: the translated expression, or the harness-computed series (entries no row
+    reads are FBad: irrelevant to the expected text, and reading one makes the model fail)"""
     n, k = tab['n'], tab['k']
-    cols = ';\n   '.join('[' + '; '.join(c09fmt.fval(x) if j % k == 0 and j // k < n else 'NaN' for j, x in enumerate(col)) + ']'
-                          for col in tab['cols'])
+    out = []
+    for col, e in zip(tab['cols'], tab.get('ecols') or [None] * len(tab['cols'])):
+        if e is not None and not plain:
+            out.append(e)
+        else:
+            out.append('plain_col [' + '; '.join(c09fmt.fl(x) if j % k == 0 and j // k < n else 'FBad' for j, x in enumerate(col)) + ']')
+    return ';\n   '.join(out)
+
+
+def table_term(tab, actual_rows, plain=False):
+    segs = '; '.join(seg_term(s) for s in tab['segs'])
     rows = '; '.join(f'({qconv.coq_bytes(r)})%string' for r in actual_rows)
-    return f'chk_table {tab["n"]} {tab["off"]} {tab["k"]} [{segs}]\n  [{cols}]\n  [{rows}]'
+    return f'chk_etable {tab["n"]} {tab["off"]} {tab["k"]} [{segs}]\n  [{table_cols(tab, plain)}]\n  [{rows}]'
+
+
+def table_defined_term(tab):
+    segs = '; '.join(seg_term(s) for s in tab['segs'])
+    return f'etable_defined {tab["n"]} {tab["off"]} {tab["k"]} [{segs}]\n  [{table_cols(tab)}]'
 
 
 def python_text(items):
